@@ -13,7 +13,11 @@ REPO = os.environ.get("IXAI_REPO", "/repo")
 # evidence/ only ever describes runs against /repo itself; runs against a scratch worktree (IXAI_REPO, used to evaluate
 # seeded changes) write their evidence next to the other scratch output
 EVID = os.path.join(VERIF, "evidence") if os.path.realpath(REPO) == os.path.realpath("/repo") else os.path.join(VERIF, ".work", "evidence-scratch")
-REPLAYS = os.path.join(VERIF, "replays")
+_SCRATCH = os.path.realpath(REPO) != os.path.realpath("/repo")
+# (several checks of one property may run at the same time against different scratch worktrees - mutation analysis,
+# fixture sweeps: each such process gets replay files of its own, so that clearing the directory at the start of one run
+# cannot pull it away under another)
+REPLAYS = os.path.join(VERIF, "replays") if not _SCRATCH else os.path.join(VERIF, ".work", "replays-scratch", str(os.getpid()))
 MAX_REPLAY_FILES = 40
 KNOWN = os.path.join(VERIF, "known_findings.json")
 
